@@ -17,6 +17,7 @@ import (
 func init() {
 	register("notify-replay", notifyReplay)
 	register("notify-conc", notifyConc)
+	register("notify-liverace", notifyLiveRace)
 }
 
 // notifyReplay replays TLC-generated failure scripts of the webhook path (spec/NotifySim.tla)
@@ -242,5 +243,22 @@ func notifyConc(args []string) int {
 		return fail(firstErr)
 	}
 	emit(map[string]interface{}{"runs": written, "not_recorded_slow": slow, "info": info})
+	return 0
+}
+
+// notifyLiveRace is the minimal reproduction of the race on the group trees: several live fences on one key
+// evaluate the same burst of writes at once (under the shared lock) and each connects the object to its group.
+// Without the repair the process dies now and then (concurrent mutation of a non-concurrent B-tree).
+func notifyLiveRace(args []string) int {
+	fs := flag.NewFlagSet("notify-liverace", flag.ExitOnError)
+	lives := fs.Int("lives", 4, "live fence connections on one key")
+	n := fs.Int("n", 20000, "SETs of fresh objects, pipelined")
+	fs.Parse(args)
+	got, err := notify.LiveRace(*lives, *n)
+	if err != nil {
+		fmt.Fprintln(os.Stderr, "harness error:", err)
+		return 2
+	}
+	emit(map[string]interface{}{"lives": *lives, "writes": *n, "events_received": got})
 	return 0
 }
